@@ -2,6 +2,13 @@
 import enginecheck as ec
 from props import engcommon
 LEVEL = 'proof'; TRUSTED = engcommon.TRUSTED_ENGINE; ASSUMPTIONS = engcommon.ASSUMPTIONS_ENGINE
+def real_binary(ctx):
+    import os, vlib, realbin
+    ninja = os.path.join(vlib.build_impl('plain'), 'ninja')
+    for name, w in realbin.start_preconditions(ninja):
+        ctx.violation(name, 'real binary: tools/realbin.py start_preconditions\n', w)
+
 def run(ctx):
+    real_binary(ctx)
     engcommon.run_engine_property(ctx, 'C04', plan_accept=600, oracles=[('start-order', lambda h, st, b, prev: ec.oracle_c04(h, st, b))], faults=0.15,
                                   feat=dict(subdirs=0.5, rsp=0.4, orderonly=0.5, dyndep=0.3))
